@@ -1059,6 +1059,41 @@ def run(ctx: Ctx):
     mdcpdp_one_metric(ctx)
     mcp_covered_indicator(ctx)
     svrp_technician_counter(ctx)
+    exact_distances(ctx, "C03.i", [(T.ALL_ENVS[c], f"{c}._get_reward") for c in TR.REWARD])
+
+
+def exact_distances(ctx: Ctx, rid: str, methods):
+    """C03.i / C08.j distances that enter an objective (or the bookkeeping shown to the policy) are computed from coordinate
+    DIFFERENCES.  torch.cdist in its default compute mode switches to the matrix-multiplication formulation
+    |x|^2 + |y|^2 - 2 x.y for more than 25 points: away from the origin the squares cancel and the result is off by the typical
+    neighbour spacing (a selected facility at a non-zero distance from itself, a tour length that differs from the recomputed
+    one).  Every function of rl4co/utils/ops.py and every listed method (own body, env class resolved through the MRO) is
+    scanned; a cdist call must pass compute_mode='donot_use_mm_for_euclid_dist'."""
+    import ast
+    fis = list(ctx.repo.module_by_path("rl4co/utils/ops.py").functions.values())
+    for path, qn in methods:
+        cname, m = qn.split(".", 1)
+        ci = ctx.repo.get_class(path, cname)
+        fi = ctx.repo.resolve_method(ci, m)
+        if fi is None:
+            raise AnalysisError(f"{qn} not found")
+        fis.append(fi)
+    seen = set()
+    for fi in fis:
+        if id(fi) in seen:
+            continue
+        seen.add(id(fi))
+        ctx.fn(fi)
+        bad = []
+        for n in ast.walk(fi.node):
+            if isinstance(n, ast.Call) and ((isinstance(n.func, ast.Attribute) and n.func.attr == "cdist") or (isinstance(n.func, ast.Name) and n.func.id == "cdist")):
+                cm = [k.value for k in n.keywords if k.arg == "compute_mode"]
+                if not (cm and isinstance(cm[0], ast.Constant) and cm[0].value == "donot_use_mm_for_euclid_dist"):
+                    bad.append(n.lineno)
+        ctx.ob(rid, f"{fi.qualname}:distances-from-differences", not bad, fi.loc,
+               "no matrix-multiplication distance" if not bad else f"torch.cdist in its default compute mode at line(s) {bad}: for more than 25 points it evaluates "
+               "|x|^2 + |y|^2 - 2 x.y, which cancels catastrophically away from the origin",
+               construct=f"{fi.qualname}:cdist-mm")
 
 
 def run_thorough(ctx: Ctx):
